@@ -277,6 +277,89 @@ impl<K: KeyT> World<K> {
         out
     }
 
+    /// `internMany <slot> <prefix> <count>`: intern `prefix0`, `prefix1`, ... (implementation-only streams; the
+    /// model driver does not know this op).  Stops at the first failure.  Oracles per call: a new string gets
+    /// the next index (C10), a present one its old key (C02); a failure is a key-space error only when all keys
+    /// are in use and a memory error only when the string does not fit under the limit (C07/C08).
+    /// Answers `ok <interned> <stop>`.
+    fn intern_many(&mut self, si: usize, prefix: &[u8], count: usize) -> String {
+        if count > (1 << 22) {
+            return "bad-op".into();
+        }
+        let limit = self.slot(si).shadow.limit.or(self.slot(si).obj.max_mem());
+        let n_cap = K::CAP;
+        let mut done = 0usize;
+        let mut stop = "all".to_string();
+        for i in 0..count {
+            let mut x = prefix.to_vec();
+            x.extend_from_slice(i.to_string().as_bytes());
+            let present = self.slots[si].shadow.index.get(&x).copied();
+            let before_len = self.slots[si].shadow.strs.len();
+            let res = match &mut self.slots[si].obj {
+                Obj::Rodeo(r) => guarded(|| r.try_get_or_intern(to_str(&x))),
+                Obj::Threaded(t, _) => guarded(|| t.try_get_or_intern(to_str(&x))),
+                _ => return "bad-op".into(),
+            };
+            match res {
+                Caught::Ok(Ok(k)) => {
+                    let k = k.into_usize();
+                    match present {
+                        Some(p) if p != k => self.fail("C02", "present-string-new-key", format!("interning a present string returned key {k}, its key is {p} (bulk intern, item {i})")),
+                        Some(_) => {}
+                        None => {
+                            if k != before_len {
+                                self.fail("C10", "key-not-dense", format!("new string got key {k}, expected the next index {before_len} (bulk intern, item {i})"));
+                            }
+                            if (before_len as u128) >= n_cap {
+                                self.fail("C07", "more-than-capacity", format!("a string was admitted although {before_len} keys (the capacity) are in use (bulk intern)"));
+                            }
+                            self.slots[si].shadow.push(x, None);
+                        }
+                    }
+                    done += 1;
+                }
+                Caught::Ok(Err(e)) => {
+                    let kind = err_name(&e);
+                    stop = kind.replace(' ', "_");
+                    if present.is_some() {
+                        self.fail("C02", "present-string-failed", format!("interning a present string failed ({kind}) (bulk intern, item {i})"));
+                    }
+                    let after_len = self.slots[si].obj.len();
+                    if after_len != before_len {
+                        self.fail("C07", "failed-intern-changed-len", format!("failed intern ({kind}) changed len {before_len}->{after_len} (bulk intern, item {i})"));
+                    }
+                    match kind {
+                        "err keys" if (before_len as u128) < n_cap => self.fail("C07", "keyspace-error-early", format!("KeySpaceExhaustion with {before_len} of {n_cap} keys in use (bulk intern, item {i})")),
+                        "err mem" => {
+                            let held: usize = self.slots[si].obj.blocks().iter().map(|b| b.1).sum();
+                            if let Some(mx) = limit {
+                                if (held as u128) + (x.len() as u128) <= mx as u128 {
+                                    self.fail("C08", "spurious-memory-error", format!("MemoryLimitReached although usage {held} + len {} <= limit {mx} (bulk intern, item {i}, {before_len} strings held)", x.len()));
+                                    if (before_len as u128) < n_cap {
+                                        self.fail("C07", "spurious-memory-error", format!("interning failed with MemoryLimitReached although neither limit is reached (usage {held} + len {} <= limit {mx}, {before_len} of {n_cap} keys) (bulk intern)", x.len()));
+                                    }
+                                }
+                            }
+                        }
+                        _ => {}
+                    }
+                    break;
+                }
+                Caught::Panic => {
+                    self.fail("C07", "fallible-panicked", format!("the fallible intern panicked (bulk intern, item {i})"));
+                    stop = "panic".into();
+                    break;
+                }
+                Caught::Fault(site) => {
+                    self.fail("C04", "fault-in-intern", format!("intern of {} bytes faulted: {site} (bulk intern, item {i})", x.len()));
+                    self.slot(si).obj = Obj::Gone;
+                    return "fault".into();
+                }
+            }
+        }
+        format!("ok {done} {stop}")
+    }
+
     /// `ctor <slot> <kind> <ctor> <capBuilder> <strings> <bytes> <limBuilder> <limit> <items>`: build through one
     /// of the constructors and the `Capacity` / `MemoryLimits` builders; answer `ok <usage> <limit> <trace>`
     /// where the trace interns `items` into a second object built the same way.  Oracle (C08): usage and
@@ -335,7 +418,7 @@ impl<K: KeyT> World<K> {
             }).collect();
             (m0, x0, t)
         }
-        let h = || VHasher::new(self.hasher);
+        let h = || VHasher::seeded(self.hasher, si as u64);
         let doc_cap = Capacity::new(doc_strings, std::num::NonZeroUsize::new(doc_bytes).unwrap());
         let doc_lim = MemoryLimits::for_memory_usage(doc_limit);
         let res = guarded(|| -> Option<((usize, usize, Vec<String>), (usize, usize, Vec<String>), Obj<K>)> {
@@ -599,9 +682,21 @@ impl<K: KeyT> World<K> {
             "low" => (0, Some(strs.len() * 2 + 3)),
             _ => (strs.len() / 2, None),
         };
-        let res = guarded(|| match kind {
-            "rodeo" => Some(Obj::Rodeo(Hinted(strs.iter(), h).collect::<Rodeo<K, VHasher>>())),
-            "threaded" => Some(Obj::Threaded(Hinted(strs.iter(), h).collect::<ThreadedRodeo<K, VHasher>>(), false)),
+        // the item type varies with the content of the list (no extra token in the op): borrowed `&String` /
+        // `&str`, owned strings that are all alive, and owned `String`s / `Box<str>`s created lazily and
+        // dropped one by one (the allocator then hands the next item the same address)
+        let variant = item_variant(&l);
+        let res = guarded(|| match (kind, variant) {
+            ("rodeo", 0) => Some(Obj::Rodeo(Hinted(strs.iter(), h).collect::<Rodeo<K, VHasher>>())),
+            ("rodeo", 1) => Some(Obj::Rodeo(Hinted(l.iter().map(|b| to_str(b).to_string()), h).collect::<Rodeo<K, VHasher>>())),
+            ("rodeo", 2) => Some(Obj::Rodeo(Hinted(strs.iter().map(|s| s.as_str()), h).collect::<Rodeo<K, VHasher>>())),
+            ("rodeo", 3) => Some(Obj::Rodeo(Hinted(strs.clone().into_iter(), h).collect::<Rodeo<K, VHasher>>())),
+            ("rodeo", _) => Some(Obj::Rodeo(Hinted(l.iter().map(|b| to_str(b).to_string().into_boxed_str()), h).collect::<Rodeo<K, VHasher>>())),
+            ("threaded", 0) => Some(Obj::Threaded(Hinted(strs.iter(), h).collect::<ThreadedRodeo<K, VHasher>>(), false)),
+            ("threaded", 1) => Some(Obj::Threaded(Hinted(l.iter().map(|b| to_str(b).to_string()), h).collect::<ThreadedRodeo<K, VHasher>>(), false)),
+            ("threaded", 2) => Some(Obj::Threaded(Hinted(strs.iter().map(|s| s.as_str()), h).collect::<ThreadedRodeo<K, VHasher>>(), false)),
+            ("threaded", 3) => Some(Obj::Threaded(Hinted(strs.clone().into_iter(), h).collect::<ThreadedRodeo<K, VHasher>>(), false)),
+            ("threaded", _) => Some(Obj::Threaded(Hinted(l.iter().map(|b| to_str(b).to_string().into_boxed_str()), h).collect::<ThreadedRodeo<K, VHasher>>(), false)),
             _ => None,
         });
         match res {
@@ -632,13 +727,26 @@ impl<K: KeyT> World<K> {
         let _ = self.slot(si);
         let l = parse_list(items);
         let strs: Vec<String> = l.iter().map(|b| to_str(b).to_string()).collect();
+        let variant = item_variant(&l);
         let res = guarded(|| match &mut self.slots[si].obj {
             Obj::Rodeo(r) => {
-                r.extend(strs.iter());
+                match variant {
+                    0 => r.extend(strs.iter()),
+                    1 => r.extend(l.iter().map(|b| to_str(b).to_string())),
+                    2 => r.extend(strs.iter().map(|s| s.as_str())),
+                    3 => r.extend(strs.clone()),
+                    _ => r.extend(l.iter().map(|b| to_str(b).to_string().into_boxed_str())),
+                }
                 true
             }
             Obj::Threaded(t, _) => {
-                t.extend(strs.iter());
+                match variant {
+                    0 => t.extend(strs.iter()),
+                    1 => t.extend(l.iter().map(|b| to_str(b).to_string())),
+                    2 => t.extend(strs.iter().map(|s| s.as_str())),
+                    3 => t.extend(strs.clone()),
+                    _ => t.extend(l.iter().map(|b| to_str(b).to_string().into_boxed_str())),
+                }
                 true
             }
             _ => false,
@@ -725,7 +833,8 @@ impl<K: KeyT> World<K> {
                 let limit = parse_limit(toks[5]).unwrap_or(usize::MAX);
                 let cap = lasso::Capacity::new(strings, std::num::NonZeroUsize::new(bytes).unwrap());
                 let lim = lasso::MemoryLimits::for_memory_usage(limit);
-                let h = VHasher::new(self.hasher);
+                // every object gets its own hasher state (slot number); clones inherit their source's
+                let h = VHasher::seeded(self.hasher, si as u64);
                 let o = match toks[2] {
                     "rodeo" => Obj::Rodeo(Rodeo::with_capacity_memory_limits_and_hasher(cap, lim, h)),
                     "threaded" => Obj::Threaded(ThreadedRodeo::with_capacity_memory_limits_and_hasher(cap, lim, h), false),
@@ -734,6 +843,7 @@ impl<K: KeyT> World<K> {
                 *self.slot(si) = Slot { obj: o, shadow: Shadow::new(), born: "" };
                 "ok".into()
             }
+            ("internMany", 4) => self.intern_many(p(1), &unhex(toks[2]), p(3)),
             ("ctor", 10) => self.ctor(p(1), toks[2], toks[3], toks[4], p(5), p(6), toks[7], toks[8], toks[9]),
             ("intern", 3) => self.intern(p(1), &unhex(toks[2]), None, false, via),
             // a long string given compactly: the prefix, padded with 'a' to the length (implementation-only
@@ -746,6 +856,16 @@ impl<K: KeyT> World<K> {
                 }
                 x.resize(n, b'a');
                 self.intern(p(1), &x, None, false, via)
+            }
+            // lookup of a long string given compactly (see `internRep`)
+            ("getRep", 4) => {
+                let mut x = unhex(toks[2]);
+                let n = p(3);
+                if n < x.len() || n > (1 << 28) {
+                    return "bad-op".into();
+                }
+                x.resize(n, b'a');
+                self.query(p(1), "get", &hex(&x), via)
             }
             ("internP", 3) => self.intern(p(1), &unhex(toks[2]), None, true, via),
             ("internS", 3) | ("internSP", 3) => {
@@ -844,4 +964,9 @@ impl<K: KeyT> World<K> {
         }
         out
     }
+}
+
+/// Which item type an `extend` / `from_iter` op feeds, derived from the list itself.
+fn item_variant(l: &[Vec<u8>]) -> usize {
+    (l.len() + l.iter().map(|x| x.len()).sum::<usize>()) % 5
 }
